@@ -1,14 +1,22 @@
 P = {
     'id': 'C20',
     'design_ref': 'DESIGN.md section 5 (C20), section 10',
-    'level_text': 'Coq theorem restart_equiv over an abstract node (db, mem) with restart = (db, rebuild db): if steps and queries read '
-                  'memory only up to a relation R and every step keeps mem R-related to rebuild db, then for all histories, all sets of '
-                  'restart points and all query lists the block results, app hashes, Info and query answers equal those of the node '
-                  'that never stopped; instance for Haqq\'s in-memory fields (EVM chain id cache: overwritten by BeginBlock before any '
-                  'use; precompile registry: constant of construction; tps counter: never read) and a refutation showing that run-time '
-                  'precompile registration would break it; on every run a real application is stopped and re-opened on the same '
-                  'database at every block boundary of random histories and compared with the continuous node, and /repo\'s sources are '
-                  'scanned for writers of in-memory keeper fields and callers of the registry-changing functions',
+    'level_text': 'Coq theorems over an abstract node (db, mem) with restart = (db, rebuild db): the obligation on the code is the '
+                  'definition mem_is_function_of_db (after every step the memory equals, on the part steps and queries read, what a '
+                  'restart would rebuild from the database); invariant_gives_restart_equiv / restart_equiv: if every step preserves it, '
+                  'then for all histories, all earlier and later restart points and all query lists a restarted node reports the same '
+                  'height and app hash, answers queries identically and produces the same results and app hashes for ever after; the '
+                  'converse witness latch_breaks_restart_refuted / latch_admits_no_relation (a once-per-process flag cleared by restart '
+                  'whose first block prunes a stored parameter: concrete 2-block history, and no choice of observable part repairs it); '
+                  'parameter updates as database writes commute with restart (kv_write / param_update / param_block_commutes_with_restart) '
+                  'and params_node_restart_equiv for the Haqq node over the stored evm / fee market parameters; instance for Haqq\'s '
+                  'in-memory fields (EVM chain id cache: overwritten by BeginBlock before any use; precompile registry: constant of '
+                  'construction; tps counter: never read), refutations for run-time precompile registration and for the begin-block gas '
+                  'that leaks into results (K16, with the repaired step proven restart-invariant); on every run a real application is '
+                  'stopped and re-opened on the same database on several restart schedules along random histories that change the '
+                  'parameters of every module through the real governance handlers, compared with the continuous node and with the '
+                  'model\'s prediction of chain id cache, registry and stored parameters after every block; /repo\'s sources are scanned '
+                  'for writers of and conditions on in-memory keeper fields and callers of the registry-changing functions',
     'level_note': 'partial: the theorem is about the logic (what must be rebuilt); the database, IAVL, baseapp and CometBFT replay are '
                   'outside the model and only sampled by the driver; a restart in the driver is a new app.NewHaqq on the same database, '
                   'not a new OS process',
@@ -20,17 +28,28 @@ P = {
     'lists': {'cases': {'type': 'mem_case', 'check': 'mem_mismatches', 'shard': 40}},
     'search': {'rounds': 2, 'n': 20},
     'rule': 'a case is a history of 4-6 blocks (thorough: 4-10) of signed eth / cosmos transactions and in-block keeper calls (contract '
-            'deployment and calls, staking precompile delegate, bank and eth transfers, vesting accounts, liquidation, DAO fund, token '
-            'pair registration, EVM / fee market / other parameter changes, software-upgrade plans with a registered no-op handler) '
+            'deployment and calls, calls of implemented / deactivated / unimplemented precompile addresses, staking precompile delegate, '
+            'bank and eth transfers, vesting accounts, liquidation, DAO fund, token pair registration, software-upgrade plans with a '
+            'registered no-op handler) and explicit parameter-update ops {"op":"params","mod":..,"p":{field: value}} executed by the '
+            'module\'s MsgUpdateParams handler from the MsgServiceRouter with the gov authority (evm: random valid ActivePrecompiles '
+            'lists incl. well-formed addresses without implementation and removed defaults, EnableCreate / EnableCall, '
+            'AllowUnprotectedTxs, ExtraEIPs; feemarket: NoBaseFee, BaseFee incl. 0, MinGasPrice, MinGasMultiplier incl. 0 and 1, '
+            'ElasticityMultiplier >= 1, BaseFeeChangeDenominator, EnableHeight; erc20, bank + send-enabled, staking, distribution, gov, '
+            'slashing, auth, consensus) or the legacy ParameterChangeProposal handler (coinomics, liquidvesting, ibc transfer), now and '
+            'then with a value the module rejects, followed in the same, the next and a later block by traffic the parameters gate; '
             'executed in lock-step by a continuous node, a node re-opened on the same database (MemDB object; goleveldb directory in '
-            'every second thorough case) at every boundary, and nodes opened on a copy of the database at 3 (thorough: all) boundaries '
-            'that execute all following blocks; compared: Info, ~100 state queries under the same header, every DeliverTx / EndBlock '
-            'result and app hash; each history also yields two cases for what a freshly started node answers through ABCI Query and '
-            'CheckTx before its first block (own classes); plus one source-scan case; non-trivial = at least 3 successful operations '
-            'and 2 boundaries; distinct = distinct histories',
+            'every second thorough case) at every boundary (twice in a row at every third), a node that runs two blocks and is then '
+            'restarted twice (thorough: also odd boundaries, every third boundary), and nodes opened on a copy of the database at 3 '
+            'boundaries (the one right after and one block after the first parameter update first; thorough: all) that execute all '
+            'following blocks and are restarted again two blocks later; compared: Info, ~130 state queries incl. the params queries '
+            'of every module under the same header, every DeliverTx / EndBlock result, app hash and the stored evm / fee market '
+            'parameters after every block; each history also yields cases for what a freshly started node answers through ABCI Query '
+            'and CheckTx before its first block and for the gas reported for a transaction failing before the ante handler in the '
+            'first block after a restart (own classes); plus one source-scan case; non-trivial = at least 3 successful operations and '
+            '2 boundaries; distinct = distinct histories',
     'trusted_base': [
         'Coq 8.16.1 kernel incl. vm_compute; std++ 1.8.0 (tactics only); axioms: none',
-        'correspondence harness harness/restart.go, chain.go, genesis.go (history ops, query set) + vlib/core.py',
+        'correspondence harness harness/restart.go, restart_params.go, chain.go, genesis.go (history ops, query set) + vlib/core.py',
         'not modelled: cometbft-db / goleveldb, IAVL, baseapp state handling, CometBFT handshake and block replay, OS process state',
     ],
     'assumptions': [
